@@ -625,18 +625,18 @@ Proof. revert i; induction l; intros i; cbn; auto. Qed.
 (* ------------------------------------------------------------------ insertion sort is a sorter *)
 Lemma insert_by_perm key x l : Permutation (x :: l) (insert_by key x l).
 Proof. induction l as [|y l IH]; cbn; [reflexivity|].
-  destruct (key x <? key y)%Z; [reflexivity|]. rewrite perm_swap. constructor. exact IH. Qed.
+  destruct (key x <=? key y)%Z; [reflexivity|]. rewrite perm_swap. constructor. exact IH. Qed.
 Lemma isort_by_perm key l : Permutation l (isort_by key l).
 Proof. induction l as [|x l IH]; cbn; [constructor|].
   etransitivity; [apply perm_skip, IH|apply insert_by_perm]. Qed.
 Lemma insert_by_sorted key x l : sorted_by key l -> sorted_by key (insert_by key x l).
 Proof.
   unfold sorted_by. induction l as [|y l IH]; intros S; cbn; [repeat constructor|].
-  destruct (key x <? key y)%Z eqn:C.
+  destruct (key x <=? key y)%Z eqn:C.
   - constructor; [exact S|]. constructor. lia.
-  - apply Z.ltb_ge in C. inversion S as [|? ? S' H]; subst. constructor; [apply IH, S'|].
-    destruct l as [|z l]; cbn; [constructor; exact C|].
-    destruct (key x <? key z)%Z; constructor; [exact C|]. inversion H; assumption.
+  - apply Z.leb_gt in C. inversion S as [|? ? S' H]; subst. constructor; [apply IH, S'|].
+    destruct l as [|z l]; cbn; [constructor; lia|].
+    destruct (key x <=? key z)%Z; constructor; [lia|]. inversion H; assumption.
 Qed.
 Lemma isort_by_sorted key l : sorted_by key (isort_by key l).
 Proof. induction l as [|x l IH]; cbn; [constructor|]. apply insert_by_sorted, IH. Qed.
@@ -704,3 +704,42 @@ Qed.
 Theorem sorted_permb_ok key inp out :
   sorted_permb key inp out = true <-> sorted_by key out /\ Permutation inp out.
 Proof. unfold sorted_permb. rewrite andb_true_iff, sorted_byb_ok, permb_ok. tauto. Qed.
+
+(* ------------------------------------------------------------------ Sort/SortBy: ascending permutation *)
+Section SortedSorter.
+Variable grow : nat -> nat -> nat.
+Hypothesis grow_ok : forall c n, n <= grow c n.
+Variable sorter : (val -> Z) -> list val -> list val.
+Hypothesis sorter_perm : forall key l, Permutation l (sorter key l).
+Hypothesis sorter_sorted : forall key l, sorted_by key (sorter key l).
+
+Theorem SortBy_sorted_perm proj h s h' r : valid h s -> SortBy grow sorter proj h s = (h', r) ->
+  heap_extends h h' /\
+  exists res, r = Ok res /\ valid h' res /\
+              sorted_by proj (contents h' res) /\ Permutation (contents h s) (contents h' res).
+Proof.
+  intros V E. destruct (SortBy_spec grow grow_ok sorter sorter_perm proj h s h' r V E) as (X & res & -> & Vr & C).
+  split; [exact X|]. exists res. rewrite C. auto.
+Qed.
+Theorem Sort_sorted_perm h s h' r : valid h s -> Sort grow sorter h s = (h', r) ->
+  heap_extends h h' /\
+  exists res, r = Ok res /\ valid h' res /\
+              sorted_by vkey (contents h' res) /\ Permutation (contents h s) (contents h' res).
+Proof. apply SortBy_sorted_perm. Qed.
+
+(** on ints the result is THE ascending rearrangement, whatever permutation SortFunc picks *)
+Theorem Sort_ints_unique h s h' r zs : valid h s -> contents h s = map VI zs ->
+  Sort grow sorter h s = (h', r) ->
+  exists res, r = Ok res /\ contents h' res = isort_by vkey (map VI zs).
+Proof.
+  intros V Cz E. destruct (Sort_sorted_perm h s h' r V E) as (_ & res & -> & _ & S & P).
+  exists res. split; [reflexivity|]. rewrite Cz in P.
+  destruct (Permutation_map_inv VI _ (Permutation_sym P)) as (zs1 & E1 & P1).
+  pose proof (isort_by_perm vkey (map VI zs)) as P2.
+  destruct (Permutation_map_inv VI _ (Permutation_sym P2)) as (zs2 & E2 & _).
+  rewrite E1, E2. f_equal. apply sorted_perm_unique.
+  - rewrite <- E1, <- E2. etransitivity; [symmetry; exact P|exact P2].
+  - rewrite <- E1. exact S.
+  - rewrite <- E2. apply isort_by_sorted.
+Qed.
+End SortedSorter.
